@@ -18,7 +18,7 @@ const DICT: [&str; 96] = [
     "{", "}", "(", ")", "[", "]", "[[", "]]", ",", ";", ":", ".", "..", "...", "|", "^", "<", "@", "&", "!", "--", "/*", "*/", "\"", "'", "'0101'B",
 ];
 
-const EXOTIC: [&str; 60] = [
+pub const EXOTIC: [&str; 62] = [
     "MY-CLASS ::= CLASS { &id INTEGER UNIQUE, &Type, &val INTEGER OPTIONAL } WITH SYNTAX { ID &id TYPE &Type [VAL &val] }",
     "obj1 MY-CLASS ::= { ID 1 TYPE INTEGER }",
     "obj2 MY-CLASS ::= { ID 2 TYPE BOOLEAN VAL 7 }",
@@ -42,6 +42,8 @@ const EXOTIC: [&str; 60] = [
     "Ext2 ::= SEQUENCE { z NULL, COMPONENTS OF Base }",
     "Ext3 ::= SEQUENCE { a NULL, ..., [[ COMPONENTS OF Base ]] }",
     "Ext4 ::= SET { COMPONENTS OF Base }",
+    "Ext5 ::= SEQUENCE { b NULL, ..., [[ COMPONENTS OF Base ]] }",
+    "Ext6 ::= SEQUENCE { c NULL, ..., [[ COMPONENTS OF Base ]], [[ d NULL ]] }",
     "T1 ::= TIME",
     "T2 ::= SEQUENCE { t TIME }",
     "T3 ::= TIME (SETTINGS \"Basic=Date Date=YMD\")",
@@ -376,24 +378,28 @@ fn fuzz_leg(seed: u64, secs: u64, jobs: &[Job]) -> Result<(Value, Vec<String>), 
     let (corpus, arts) = (format!("{work}/corpus"), format!("{work}/artifacts"));
     std::fs::create_dir_all(&corpus).map_err(|e| e.to_string())?;
     std::fs::create_dir_all(&arts).map_err(|e| e.to_string())?;
-    // seed corpus: up to 1500 small structured inputs, spread over the classes
+    // seed corpus: a few hundred small structured inputs, spread over the classes (the compiler
+    // keeps module headers in reference-counted cycles, so a process that runs thousands of large
+    // inputs grows; the initial merge of the corpus runs in one process and must stay small)
     let mut n = 0;
-    for (i, j) in jobs.iter().enumerate() {
-        if j.text.len() <= 3000 && (i % (jobs.len() / 1500 + 1) == 0 || j.class == "replay") {
+    let small: Vec<&Job> = jobs.iter().filter(|j| j.text.len() <= 1500).collect();
+    for (i, j) in small.iter().enumerate() {
+        if i % (small.len() / 600 + 1) == 0 || j.class == "replay" {
             let _ = std::fs::write(format!("{corpus}/seed-{i}"), &j.text);
             n += 1;
         }
     }
     let dict: String = DICT.iter().filter(|d| !d.contains('"') && !d.contains('\\')).enumerate().map(|(i, d)| format!("kw{i}=\"{d}\"\n")).collect();
     std::fs::write(format!("{work}/asn1.dict"), dict).map_err(|e| e.to_string())?;
-    let out = Command::new(&bin)
-        .arg(&corpus)
+    let run = |corpus_dir: &str| {
+        Command::new(&bin)
+        .arg(corpus_dir)
         .args([
             &format!("-max_total_time={secs}"),
             &format!("-seed={}", (seed % 0xffff_fffe) + 1),
             "-max_len=4000",
             "-timeout=20",
-            "-rss_limit_mb=4096",
+            "-rss_limit_mb=6144",
             "-fork=16",
             "-ignore_crashes=1",
             "-ignore_timeouts=1",
@@ -402,8 +408,19 @@ fn fuzz_leg(seed: u64, secs: u64, jobs: &[Job]) -> Result<(Value, Vec<String>), 
             &format!("-dict={work}/asn1.dict"),
         ])
         .output()
-        .map_err(|e| format!("cannot run the fuzz target: {e}"))?;
-    let log = String::from_utf8_lossy(&out.stderr).to_string();
+        .map_err(|e| format!("cannot run the fuzz target: {e}"))
+    };
+    let mut out = run(&corpus)?;
+    let mut log = String::from_utf8_lossy(&out.stderr).to_string();
+    if !log.lines().any(|l| l.starts_with('#') && l.contains("cov:")) {
+        // the campaign did not get past loading the seed corpus: run it from an empty corpus
+        // (dictionary only) rather than not at all
+        let empty = format!("{work}/empty-corpus");
+        std::fs::create_dir_all(&empty).map_err(|e| e.to_string())?;
+        n = 0;
+        out = run(&empty)?;
+        log = String::from_utf8_lossy(&out.stderr).to_string();
+    }
     // fork mode prints "#<execs>: cov: <n> ft: <n> corp: <n> exec/s: <n> ..." lines
     let last = log.lines().rev().find(|l| l.starts_with('#') && l.contains("cov:")).unwrap_or("").to_string();
     let execs: u64 = last.trim_start_matches('#').split(':').next().and_then(|x| x.trim().parse().ok()).unwrap_or(0);
